@@ -112,6 +112,21 @@ def first_char_sweep(tier):
     return out
 
 
+def escape_sweep(tier):
+    """code points written as hex escapes (1-6 digits, upper/lower case, with and without terminator) in every token
+    type that decodes them: the boundaries of the code-point range in particular"""
+    cps = [1, 0x1f, 0x20, 0x7f, 0x80, 0xff, 0x100, 0xd7ff, 0xd800, 0xdfff, 0xe000, 0xfffd, 0xfffe, 0xffff, 0x10000, 0xfffff, 0x100000, 0x10fffd, 0x10fffe,
+           0x10ffff, 0x110000, 0x110001, 0x1fffff, 0xffffff, 0xabcdef]
+    if tier == 'thorough':
+        cps += list(range(0x10ff00, 0x110100)) + [2 ** k for k in range(24)] + [2 ** k - 1 for k in range(1, 25)]
+    out = []
+    for c in cps:
+        for e in ('\\%x ' % c, '\\%X' % c, '\\%06x' % c if c <= 0xffffff else '\\%x' % c):
+            for tmpl in ('a%sb', '%s', '#x%s', '"s%st"', 'url(u%sv)', '1p%sx', 'f%s(', '@k%s', '.c%s{d:e}', "'%s'", 'U+%s'):
+                out.append(('escape', tmpl % e, None))
+    return out
+
+
 def check_oracles(ctx, text, toks_full, toks_plain, expected):
     """property oracles on the implementation's own output"""
     case = {'text': text}
@@ -202,6 +217,7 @@ def run(ctx):
         return
     cases = gen_cases(ctx, 1500 if quick else 40000, 1500 if quick else 40000, 600 if quick else 8000)
     cases += first_char_sweep(ctx.tier)
+    cases += escape_sweep(ctx.tier)
     corpus = core.VERIF + '/corpus/C05.json'
     try:
         for t in json.load(open(corpus)):
